@@ -366,8 +366,11 @@ func (c *dedicatedSingleClient) SetOnInvalidations(fn func([]RedisMessage)) <-ch
 }
 
 func (c *dedicatedSingleClient) Close() {
-	c.wire.Close()
-	c.release()
+	// once released, the wire may already serve another caller: closing it is no longer ours to do
+	if atomic.CompareAndSwapUint32(&c.mark, 0, 1) {
+		c.wire.Close()
+		c.conn.Store(c.wire)
+	}
 }
 
 func (c *dedicatedSingleClient) check() error {
